@@ -45,13 +45,17 @@ THEOREMS = [
     "Mesa.Viz.C20_check_refuses_var_positional",
     "Mesa.Viz.C20_split_lossless_disjoint",
     "Mesa.Viz.C20_creator_checks_all_params",
+    "Mesa.Viz.C20_creator_params_lossless",
+    "Mesa.Viz.C20_user_inputs_one_per_adjustable_param",
+    "Mesa.Viz.C20_creator_accepts_iff_model_can_be_created",
+    "Mesa.Viz.C20_input_change_keeps_the_parameter_set",
 ]
 COUNTS = {"quick": 1600, "thorough": 60000}
 TRUSTED = [
     "matplotlib: Axes.scatter stores the x/y/s/c/marker/zorder/alpha/edgecolors/linewidths it is given in one PathCollection (read back through get_offsets/get_sizes/get_facecolors/get_edgecolors/get_linewidths/get_zorder/get_paths); slot i of a keyword array belongs to marker i (the model's `Group.drawn`); a marker whose alpha / edge colour / line width is the filled-in default (own colour's alpha, face colour, rcParams patch.linewidth) reads back like one drawn without the keyword; colour-name conversion, marker rendering, imshow(origin='lower') putting array row r at height r",
     "matplotlib, property layers: imshow(origin='lower') keeps the array, vmin / vmax / alpha / cmap it is given (read back through get_array, norm, get_alpha, get_cmap); a colormap maps level k/span to a colour of its own (the level behind a hexagon's colour is searched among the multiples of 1/span); Colorbar widens a range without extent by nonsingular(expander=0.1) (undone when read back) and does what it likes with an inverted range (not compared); the colour of a name (to_rgba)",
     "Altair: Chart.to_dict() reports the rows given to alt.Data(values=...), the encoding channels (x / y type, colour, size, tooltip fields) and the mark properties unchanged; what Vega-Lite renders from them (a nominal colour scale maps colour names to scheme colours) is not modelled",
-    "solara/reacton: solara.render runs the component function and its effects once (used for SpaceMatplotlib, SpaceAltair, ModelCreator; the Axes / Chart are taken from the post_process hook)",
+    "solara/reacton: solara.render runs the component function, its children and then its effects once (used for SpaceMatplotlib, SpaceAltair, ModelCreator; the Axes / Chart are taken from the post_process hook; the inputs UserInputs creates are recorded at solara's boundary — the calls of solara.SliderInt / SliderFloat / Select / Checkbox / InputText —, an input is changed by calling its on_value); a reactive value set outside a render keeps the value",
     "networkx spring_layout(seed=0) is deterministic; the model keeps a node's label for its layout position",
     "numpy boolean masking / np.unique / set() over the marker and z-order arrays (the model keeps the distinct values; the order of the scatter calls is not compared)",
     "positions are exact integers (hex grids in units of sqrt(3)/2 and 1/2); IEEE rounding of the hex transform is checked with tolerance 1e-6, not modelled",
@@ -74,7 +78,9 @@ RULE = ("40% space scenarios: one of 12 space classes (4 mesa.space grids, 3 dis
         "60% parameter scenarios: 1-3 generated __init__ signatures (instance parameter named self/this, positional-only, missing; "
         "positional-only, positional-or-keyword, *args, keyword-only, **kwargs under any name, defaults) each with 2-6 key sets "
         "(required names mostly present, extras, the instance's name, positional-only names) through _check_model_params, "
-        "ModelCreator (solara.render) and split_model_params; plus, on every run, the exhaustive enumeration of all signature shapes "
+        "ModelCreator (solara.render) and split_model_params, and through ModelCreator on full parameter dicts (fixed ints and dicts, int / float "
+        "Slider objects, option dicts of the five supported and of unsupported types, with / without value and label) followed by changes of "
+        "inputs (model_parameters read back after each); plus, on every run, the exhaustive enumeration of all signature shapes "
         "with <= 3 parameters after the instance parameter x all key subsets (376 signatures, 6.1k checks); non-trivial = an observation of >= 2 agents or a check against >= 3 "
         "parameters; distinct = distinct op-line sequences (sha1)")
 
@@ -178,8 +184,12 @@ def tags(sc, obs):
         for l, o in zip(sc.lines[1:], obs[1:]):
             w = l.split()
             yield "op:" + w[0]
-            if w[0] in ("check", "creator"):
-                yield "result:" + " ".join(o.split()[:2])
+            if w[0] in ("check", "creator", "inputs", "change"):
+                yield ("" if w[0] in ("check", "creator") else w[0] + "-") + "result:" + " ".join(o.split()[:2 if o.startswith("err") else 1])
+            if w[0] == "inputs":
+                for t in w[1:]:
+                    f = t.split(":")[1].split("/")
+                    yield "input:" + (f[0] if f[0] != "spec" else f[1] if f[1] in V.INPUT_TYPES else "unsupported-type")
             if w[0] == "sig":
                 for p in w[1:]:
                     yield "param-kind:" + p.split(":")[1]
